@@ -30,6 +30,7 @@ compares them), `DayDatesOK` (years ≥ 0), `TargetsOK` (transactions of a day t
 otherwise the unstable sort shows, as the model's note on `sortTxs` says).  Trusted rather than translated: `Journal.Process` =
 `processDays` (C19 is about `cpr.Seq`), `Processor.Process` = `processDay` (as in `TransProcess`).
 -/
+set_option linter.unusedSimpArgs false
 namespace Knut.FactsAgree.TransJPrinter2
 open Knut Knut.GoSem
 open Knut.Generated.Go
